@@ -26,6 +26,7 @@ import (
 	"github.com/lidofinance/dc4bc/client/services/signature"
 	"github.com/lidofinance/dc4bc/client/types"
 	"github.com/lidofinance/dc4bc/fsm/state_machines"
+	"github.com/lidofinance/dc4bc/storage"
 )
 
 const Topic = "sim"
@@ -77,10 +78,13 @@ type HotNode struct {
 	Pub      ed25519.PublicKey
 	StateDir string
 	Handle   *BoardHandle
-	ks       *memKeyStore
-	inc      *Incarnation
-	Restarts int
-	Panics   []string // non-sentinel panics of any task of this node
+	// AltStorage, when set, is the board connection the next incarnation uses
+	// instead of Handle (frozen logs for replay comparisons)
+	AltStorage storage.Storage
+	ks         *memKeyStore
+	inc        *Incarnation
+	Restarts   int
+	Panics     []string // non-sentinel panics of any task of this node
 	// what was durable when the last incarnation died (read from its LevelDB
 	// before the handle is closed)
 	Deaths      int
@@ -148,8 +152,12 @@ func (w *World) StartNode(n *HotNode) error {
 		HttpApiConfig:      &config.HttpApiConfig{ListenAddr: "sim"},
 		KafkaStorageConfig: &config.KafkaStorageConfig{Topic: Topic},
 	}
+	var stg storage.Storage = n.Handle
+	if n.AltStorage != nil {
+		stg = n.AltStorage
+	}
 	sp := services.ServiceProvider{}
-	sp.SetStorage(n.Handle)
+	sp.SetStorage(stg)
 	sp.SetKeyStore(n.ks)
 	sp.SetLogger(lg)
 	sp.SetState(gs)
@@ -159,7 +167,7 @@ func (w *World) StartNode(n *HotNode) error {
 		real.SimClose()
 		return fmt.Errorf("NewOperationRepo: %w", err)
 	}
-	sp.SetFSMService(fsmservice.NewFSMService(gs, n.Handle, Topic))
+	sp.SetFSMService(fsmservice.NewFSMService(gs, stg, Topic))
 	sp.SetSignatureService(signature.NewSignatureService(sigRepo))
 	sp.SetOperationService(operation.NewOperationService(opRepo))
 	ctx, cancel := context.WithCancel(context.Background())
